@@ -236,12 +236,20 @@ def check_format(ctx, fmt, reader_cls):
     # ---- R-TFLAGPAIR in the reader
     date_names = [f.name for f in renv.eval(rb['date_time_fmt'])]
     npair = 0
+    # local aliases of the DATE record (datehdr = self.__memmap__['DATE'])
+    date_alias = set()
+    for st_ in ast.walk(rm.cls(reader_cls)):
+        if isinstance(st_, ast.Assign) and len(st_.targets) == 1 and isinstance(st_.targets[0], ast.Name) and isinstance(st_.value, ast.Subscript) \
+                and const_str(st_.value.slice) == 'DATE':
+            date_alias.add(st_.targets[0].id)
     for c in ast.walk(rm.cls(reader_cls)):
         if isinstance(c, ast.Call) and dotted(c.func) == 'ConvertCAMxTime' and len(c.args) >= 2:
             ks = []
             for a in c.args[:2]:
                 k = None
                 if isinstance(a, ast.Subscript) and const_str(a.slice) and isinstance(a.value, ast.Subscript) and const_str(a.value.slice) == 'DATE':
+                    k = const_str(a.slice)
+                if isinstance(a, ast.Subscript) and const_str(a.slice) and isinstance(a.value, ast.Name) and a.value.id in date_alias:
                     k = const_str(a.slice)
                 ks.append(k)
             if None in ks:
@@ -443,6 +451,11 @@ def check_varorder(ctx):
                 wl = [const_str(e) for e in it.elts]
                 wst = st
     if wl is None:
+        dyn = [st for st in iter_stmts(wfn.body) if isinstance(st, ast.Assign) and isinstance(st.targets[0], ast.Name) and st.targets[0].id == 'varkeys']
+        if dyn and isinstance(dyn[0].value, ast.ListComp) and 'variables' in norm(dyn[0].value.generators[0].iter):
+            ctx.violation(Finding('R-VARORDER', wm.relpath, 'ncf2cloud_rain', dyn[0], 'the per-layer records are written in the order of the file\'s own variable table (%s), not in the fixed order '
+                                  'the reader maps record positions to: a file assembled in another order gets COD in the RAIN slot' % norm(dyn[0].value.generators[0].iter)))
+            return
         raise AnalysisError('construct not understood: varkeys of ncf2cloud_rain')
     # reader: record index -> code -> variable name, per version branch of __var_get
     known = set(wl)
@@ -508,10 +521,27 @@ def check_api(ctx, tier):
                                               'begin/source values written to the file change too' % (a, orig, orig, norm(later)[:50])))
                     if not al:
                         ctx.ok('R-INPLACEALIAS', '%s:%s' % (fmt, q), 'src/PseudoNetCDF/%s %s' % (rp, q), 'no in-place update through an alias of a live array')
+                    # provenance scan (shared with C05): the writer leaves the caller's file untouched
+                    from .c05 import _qmut_scan
+                    try:
+                        p_, events_, nsink_, bad_ = _qmut_scan(ctx, m, q, fn, None, [a.arg for a in fn.args.args[:1]], [], False)
+                    except Exception as e_:
+                        bad_, nsink_ = None, 0
+                    if bad_ is None:
+                        ctx.undec('R-SRCUNTOUCHED', '%s:%s' % (fmt, q), 'src/PseudoNetCDF/%s %s' % (rp, q), 'provenance walk did not complete')
+                    elif bad_:
+                        for ev in bad_:
+                            ctx.violation(Finding('R-SRCUNTOUCHED', rp, q, ev.stmt, 'the writer updates in place a %s of the data of its input file (%s%s): the first write is right, but the caller\'s '
+                                                  'object is changed and a second write of it differs' % ({'VIEW': 'view', 'SAME': 'variable'}.get(ev.base[0], ev.base[0]), ev.kind,
+                                                                                                        (' ' + ev.extra) if ev.extra else '')),
+                                          oid='%s:%s' % (q, norm(ev.stmt)[:60]))
+                    else:
+                        ctx.ok('R-SRCUNTOUCHED', '%s:%s' % (fmt, q), 'src/PseudoNetCDF/%s %s' % (rp, q), '%d write sinks, none on storage of the input file' % nsink_)
                     rv = lints.reinterpret_input(fn, [a.arg for a in fn.args.args[:1]])
                     for call, recv in rv:
-                        ctx.violation(Finding('R-CONVERT', rp, q, api.stmt_of(call), '%s still has the dtype of the caller\'s data and is reinterpreted with %s instead of converted (astype): '
-                                              'native or double-precision input is written byte-swapped or with doubled record length' % (recv, norm(call)[-20:])))
+                        ctx.violation(Finding('R-CONVERT', rp, q, api.stmt_of(call), '%s still has the dtype of the caller\'s data and is %s instead of converted to the 4-byte record type (astype(\'>f\')): '
+                                              'native or double-precision input is written byte-swapped or with doubled record length' % (
+                                                  recv, 'reinterpreted with ' + norm(call)[-20:] if call.func.attr == 'view' else 'only byte-swapped (%s)' % norm(call)[-40:])))
                     if not rv:
                         ctx.ok('R-CONVERT', '%s:%s' % (fmt, q), 'src/PseudoNetCDF/%s %s' % (rp, q), 'input data reach the file through astype, never through a dtype view')
     ctx.floor('writer/reader functions under R-API', n, 30)
@@ -574,6 +604,7 @@ def run(ctx):
                  ('R-EDGECELLS', 'edge -> cell-count table agrees between boundary writer and reader'),
                  ('R-VARORDER', 'cloud/rain variable order agrees between writer and reader'),
                  ('R-CENTURY', 'two-digit years get their century back per element (files may cross 1999/2000)'),
+                 ('R-SRCUNTOUCHED', 'writers never write storage of the file they are given (alias/view provenance)'),
                  ('R-INPLACEALIAS', 'writers never update in place an array that aliases one still to be written'),
                  ('R-CONVERT', 'writers convert input data with astype, never reinterpret it with a dtype view'),
                  ('R-API', 'writers and readers use only numpy APIs that exist')):
@@ -603,6 +634,64 @@ def run(ctx):
             else:
                 ctx.undec('R-CENTURY', rp_, 'src/PseudoNetCDF/%s ConvertCAMxTime' % rp_, 'century restoration not in a recognised elementwise form')
     ctx.floor('ConvertCAMxTime definitions', ncent, 1)
+    # the pivot and the two centuries themselves: 00-69 -> 20xx, 70-99 -> 19xx (the writers store date % 100000; the property covers 1970-2069)
+    for rp_ in ('ArrayTransforms.py', 'camxfiles/ArrayTransforms.py'):
+        m_ = ctx.src.mod(rp_)
+        if not m_.has_func('ConvertCAMxTime'):
+            continue
+        f_ = m_.func('ConvertCAMxTime')
+        wh = [c for c in ast.walk(f_) if isinstance(c, ast.Call) and (dotted(c.func) or '').split('.')[-1] == 'where' and len(c.args) == 3 and isinstance(c.args[0], ast.Compare)]
+        consts_ok = None
+        for c in wh:
+            cmp_ = c.args[0]
+            if len(cmp_.ops) == 1 and isinstance(cmp_.comparators[0], ast.Constant) and all(isinstance(a, ast.Constant) for a in c.args[1:]):
+                piv, a_, b_ = cmp_.comparators[0].value, c.args[1].value, c.args[2].value
+                # decide the century of sample two-digit-year dates with the comparison as written
+                def cent(d):
+                    op = cmp_.ops[0]
+                    t = {ast.Lt: d < piv, ast.LtE: d <= piv, ast.Gt: d > piv, ast.GtE: d >= piv}.get(type(op))
+                    return None if t is None else d + (a_ if t else b_)
+                want = {1: 2000001, 365: 2000365, 69001: 2069001, 69365: 2069365, 70001: 1970001, 99365: 1999365}
+                got = dict((d, cent(d)) for d in want)
+                wrong = [(d, got[d], want[d]) for d in sorted(want) if got[d] != want[d]]
+                if wrong:
+                    ctx.violation(Finding('R-CENTURY', rp_, 'ConvertCAMxTime', api.stmt_of(c), 'the stored date %05d is decoded as %s instead of %d: the two-digit years 00-69 belong to 20xx and 70-99 to 19xx '
+                                          '(dates 1970-2069)' % wrong[0]), oid=rp_ + ':pivot')
+                    consts_ok = False
+                elif consts_ok is None:
+                    consts_ok = True
+        if consts_ok:
+            ctx.ok('R-CENTURY', rp_ + ':pivot', 'src/PseudoNetCDF/%s ConvertCAMxTime' % rp_, 'pivot/centuries decode 00001..69365 as 20xx and 70001..99365 as 19xx')
+        elif consts_ok is None:
+            ctx.undec('R-CENTURY', rp_ + ':pivot', 'src/PseudoNetCDF/%s ConvertCAMxTime' % rp_, 'pivot constants not in the where(date < P, A, B) form')
+    # ---- R-KEYPARSE: 'EDGE_SPECIES' keys of the boundary reader: everything after the first underscore is the species (names may contain underscores)
+    from .. import consteval
+    ctx.rule('R-KEYPARSE', "lateral_boundary reader: the variable key 'EDGE_SPECIES' is split at the first underscore only")
+    lbm = ctx.src.mod(CAMX + 'lateral_boundary/Memmap.py')
+    vf = lbm.func('lateral_boundary.__variables')
+    wvf = 'src/PseudoNetCDF/%slateral_boundary/Memmap.py lateral_boundary.__variables' % CAMX
+    head = []
+    for st in vf.body:
+        if isinstance(st, ast.Assign):
+            head.append(st)
+        else:
+            break
+    wrong = unk = None
+    for key, e_, s_ in (('WEST_O3', 'WEST', 'O3'), ('EAST_O3_A', 'EAST', 'O3_A'), ('NORTH_NO_2_X', 'NORTH', 'NO_2_X'), ('SOUTH_PAR', 'SOUTH', 'PAR')):
+        env = consteval.run_block(head, {vf.args.args[1].arg: key}, want_env=True)
+        if env is consteval.UNK or env.get('edgename', consteval.UNK) is consteval.UNK or env.get('spcname', consteval.UNK) is consteval.UNK:
+            unk = key
+            continue
+        if (env['edgename'], env['spcname']) != (e_, s_):
+            wrong = (key, env['edgename'], env['spcname'])
+            break
+    if wrong:
+        ctx.violation(Finding('R-KEYPARSE', lbm.relpath, 'lateral_boundary.__variables', head[0], 'the key %r is parsed as edge %r, species %r: a species name containing an underscore is cut short, so the '
+                              'variable returns another species\' data (or raises)' % wrong))
+    elif unk:
+        ctx.undec('R-KEYPARSE', 'key parse', wvf, 'parsing statements outside the evaluated fragment for %r' % unk)
+    else:
+        ctx.ok('R-KEYPARSE', 'key parse', wvf, '4 sample keys (species with 0-2 underscores) parsed exactly')
     check_edgecells(ctx)
     check_varorder(ctx)
     check_landuse(ctx)
